@@ -42,6 +42,14 @@ def cases(rng, tier, X):
         out.append(('m%d_merged' % k, head + merged))
         out.append(('m%d_solo0' % k, head + h0))
         out.append(('m%d_solo1' % k, head + h1))
+    # universal traffic on two interfaces (every frame type / sender / path / service, Emits naming the other interface's address, ...)
+    for k in range(40 if tier == 'quick' else 4000):
+        u = F.universal(rng, nif=2, with_glob_changes=False)
+        head = [o for o in u if o.startswith(('iface', 'glob'))]
+        body = [o for o in u if o.startswith('rx ')]
+        out.append(('u%d_merged' % k, head + body))
+        out.append(('u%d_solo0' % k, head + [o for o in body if o.startswith('rx 0 ')]))
+        out.append(('u%d_solo1' % k, head + [o for o in body if o.startswith('rx 1 ')]))
     # resource cross-talk: interface 0 holds close to the cap of unreported observations while interface 1 records and reports its own
     for k in range(2 if tier == 'quick' else 40):
         head = [F.iface_line(0, mac=F.OWN, mtu=1500), F.iface_line(1, mac=F.OWN2, mtu=1500), F.glob_line()]
